@@ -515,6 +515,13 @@ func (db *MultiBucketBackend) PutObject(
 	}
 
 	if objectDir != "." {
+		// If the object cannot be created after all (a name the filesystem
+		// refuses, no space left), the directories made for it must not stay:
+		defer func() {
+			if err != nil {
+				db.pruneEmptyDirsLocked(bucketName, objectPath)
+			}
+		}()
 		if err := db.bucketFs.MkdirAll(objectDir, db.dirMode); err != nil {
 			return result, err
 		}
@@ -618,11 +625,21 @@ func (db *MultiBucketBackend) deleteObjectLocked(bucketName, objectName string) 
 		return err
 	}
 
-	// Directories only exist to hold objects: remove the parents this delete
-	// left empty (never the bucket itself), otherwise they keep the bucket
-	// "not empty" forever and show up as common prefixes of keys that are gone.
+	db.pruneEmptyDirsLocked(bucketName, fullPath)
+
+	return nil
+}
+
+// Directories only exist to hold objects: pruneEmptyDirsLocked removes the
+// parents of fullPath that are empty (never the bucket itself), otherwise they
+// keep the bucket "not empty" forever and show up as common prefixes of keys
+// that are gone, or were never stored.
+func (db *MultiBucketBackend) pruneEmptyDirsLocked(bucketName, fullPath string) {
 	for dir := path.Dir(fullPath); strings.HasPrefix(dir, bucketName+"/"); dir = path.Dir(dir) {
 		entries, err := afero.ReadDir(db.bucketFs, filepath.FromSlash(dir))
+		if noSuchFile(err) {
+			continue // never made: its parents may have been
+		}
 		if err != nil || len(entries) > 0 {
 			break
 		}
@@ -630,8 +647,6 @@ func (db *MultiBucketBackend) deleteObjectLocked(bucketName, objectName string) 
 			break
 		}
 	}
-
-	return nil
 }
 
 func (db *MultiBucketBackend) DeleteMulti(bucketName string, objects ...string) (result gofakes3.MultiDeleteResult, rerr error) {
